@@ -20,7 +20,7 @@ def universes(tier):
     big = 1 << 64
     ints = [(xint(v), v) for v in (0, 1, -1, big)]
     strs = [(xstr(v), v) for v in ('', 'a', 'b', 'é')]
-    floats = [(xfloat(v), v) for v in (0.0, 1.5, -2.0)]
+    floats = [(xfloat(v), v) for v in (0.0, 1.5, -2.0)] + [('(-0.0)', -0.0), ('(0.0 * -1.0)', -0.0)]     # negative zero equals zero: every order must agree
     bools = [('true', True), ('false', False)]
     U = {}
     U['int'] = ints
